@@ -697,7 +697,13 @@ func ruleU7(c *Ctx) {
 		c.anchorMissing("U7", "pass2.(*Pass2).Eval")
 	} else {
 		opt := false
-		callsIn(f, func(ci ssa.CallInstruction) {
+		unit := unitOf(f, 3)
+		forUnit := func(fn func(ci ssa.CallInstruction)) {
+			for _, g := range unit {
+				callsIn(g, fn)
+			}
+		}
+		forUnit(func(ci ssa.CallInstruction) {
 			if calleeName(ci.Common()) == "(*text/template.Template).Option" {
 				if sl, ok := ci.Common().Args[1].(*ssa.Slice); ok {
 					if al, ok := sl.X.(*ssa.Alloc); ok && al.Referrers() != nil {
@@ -719,12 +725,28 @@ func ruleU7(c *Ctx) {
 		c.check(opt, "U7", "Pass2.Eval|missingkey=error", c.L.Pos(f.Pos()), "placeholders must be resolved with Option(\"missingkey=error\"), otherwise an undefined label prints as 0 / <no value>")
 		// the error of Execute is returned
 		ret := false
-		callsIn(f, func(ci ssa.CallInstruction) {
+		forUnit(func(ci ssa.CallInstruction) {
 			if calleeName(ci.Common()) == "(*text/template.Template).Execute" {
 				for eb := range errBranchBlocks(ci) {
 					if _, ok := eb.Instrs[len(eb.Instrs)-1].(*ssa.Return); ok {
 						ret = true
 					}
+				}
+				// inside a helper: its callers in the unit must abort on its error as well
+				if g := ci.Parent(); g != f {
+					forUnit(func(cj ssa.CallInstruction) {
+						if cj.Common().StaticCallee() == g {
+							aborts := false
+							for eb := range errBranchBlocks(cj) {
+								if _, ok := eb.Instrs[len(eb.Instrs)-1].(*ssa.Return); ok {
+									aborts = true
+								}
+							}
+							if !aborts {
+								ret = false
+							}
+						}
+					})
 				}
 			}
 		})
